@@ -149,7 +149,7 @@ fn unary_check<B: Fld, E: ExtEl<B, N>, const N: usize>(st: &mut State, a: Reg<E,
     check::<B, E, N>(st, "cube", &ins, a.e.cube(), x.mul(a.r, x.mul(a.r, a.r)));
     st.evals += 4;
     // multiplication by a base element
-    let bcoef = B::from_raw(rng.u128() % B::RAW_LIMIT);
+    let bcoef = if rng.bool() { B::from_raw(rng.u128() % B::RAW_LIMIT) } else { B::from_res(*rng.pick(&wfv::fields::boundary_ints(B::FP.p)) % B::FP.p) };
     let br = res_of_raw::<B>(bcoef.raw());
     check::<B, E, N>(st, "mul_base", &ins, a.e.mul_base(bcoef), x.mul_base(a.r, br));
     // embedding
@@ -398,6 +398,19 @@ where
         let a = operand::<B, E, N>(rng, &bnd);
         unary_check::<B, E, N>(st, a, rng, true);
     });
+    // (1b) multiplication by a base element: every boundary element of the base field as the multiplier
+    run.par(&format!("{nm}-mul-base"), nb as u64, |i, rng, st| {
+        let bcoef = bnd[i as usize];
+        let br = res_of_raw::<B>(bcoef.raw());
+        for _ in 0..6 {
+            let a = operand::<B, E, N>(rng, &bnd);
+            let ins = [a.e.coeffs().map(|c| c.raw()), [bcoef.raw(); N]];
+            check::<B, E, N>(st, "mul_base", &ins, a.e.mul_base(bcoef), x.mul_base(a.r, br));
+            check::<B, E, N>(st, "embed-mul", &ins, a.e * E::from(bcoef), x.mul_base(a.r, br));
+            st.evals += 2;
+        }
+        st.count(&format!("{nm}.mul_base_boundary_multipliers"));
+    });
     // (2) random / boundary mixes with all operations and laws
     run.par(&format!("{nm}-random"), scale, |i, rng, st| {
         let a = operand::<B, E, N>(rng, &bnd);
@@ -433,9 +446,10 @@ fn main() {
         require.push((format!("{e}.nonzero_inverses"), 100));
         require.push((format!("{e}.slice_cases"), 100));
         require.push((format!("{e}.conversion_cases"), 100));
+        require.push((format!("{e}.mul_base_boundary_multipliers"), 50));
     }
     run.finish(Finish {
-        rule: "operands: each coefficient position takes every boundary element of the base field (boundary integers as residues and as internal images) against every (position, boundary) of the other operand, remaining coefficients random/boundary; plus random pairs. Per pair: add/sub/mul/div (+assign forms) vs schoolbook product reduced by the documented irreducible; per operand: neg,double,square,cube,mul_base,from(base),inv,conjugate(=x^p),exp, byte round trip, slice reinterpretation, conversions (base_element, integer embeddings, canonical encodings accepted exactly when every coefficient is below the modulus, wrong lengths, ragged / misaligned byte slices refused, Display); laws: conj multiplicative/additive/fixes exactly the base field/order N, a*inv(a)=1, embedding homomorphism. distinct = distinct operand pair (by residues)".into(),
+        rule: "operands: each coefficient position takes every boundary element of the base field (boundary integers as residues and as internal images) against every (position, boundary) of the other operand, remaining coefficients random/boundary; plus random pairs. Per pair: add/sub/mul/div (+assign forms) vs schoolbook product reduced by the documented irreducible; per operand: neg,double,square,cube,mul_base (multipliers: every boundary element of the base field, boundary integers, random),from(base),inv,conjugate(=x^p),exp, byte round trip, slice reinterpretation, conversions (base_element, integer embeddings, canonical encodings accepted exactly when every coefficient is below the modulus, wrong lengths, ragged / misaligned byte slices refused, Display); laws: conj multiplicative/additive/fixes exactly the base field/order N, a*inv(a)=1, embedding homomorphism. distinct = distinct operand pair (by residues)".into(),
         assumptions: vec![
             "reference: schoolbook polynomial arithmetic over the u128 reference field; Frobenius as x^p; inverse via the norm".into(),
             "irreducibles as documented: f64 x^2-x+2, x^3-x-1; f62 x^2-x-1, x^3+2x+2; f128 x^2-x-1".into(),
